@@ -19,6 +19,10 @@ pub enum Dissent {
     AddAlgorithm,
     AddEntry,
     RemoveEntry,
+    /// a further entry that spells an existing path differently (`./p`, `p/.`, `x/../p`, doubled slash) and carries another digest
+    AddAliasEntry,
+    /// the digest value cut to its first half (still hexadecimal)
+    TruncateDigest,
 }
 
 #[derive(Clone, Debug, Serialize, Deserialize)]
@@ -128,6 +132,26 @@ fn dissenting(a: &Artifacts, d: &Dissent, entry: u8) -> Artifacts {
         Dissent::RemoveEntry => {
             out.remove(&k);
         }
+        Dissent::AddAliasEntry => {
+            let alias = match entry / 16 % 4 {
+                0 | 1 => format!("./{}", k),
+                2 => format!("x/../{}", k),
+                _ => {
+                    if k.contains('/') {
+                        k.replacen('/', "//", 1)
+                    } else {
+                        format!("{}/.", k)
+                    }
+                }
+            };
+            let cur = a[&k].get("sha256").cloned().unwrap_or_default();
+            out.insert(alias, [("sha256".to_string(), fresh_digest(&cur))].into());
+        }
+        Dissent::TruncateDigest => {
+            let m = out.get_mut(&k).unwrap();
+            let (alg, val) = m.iter().next().map(|(a, v)| (a.clone(), v.clone())).unwrap();
+            m.insert(alg, val[..val.len() / 2 & !1].to_string());
+        }
     }
     out
 }
@@ -140,7 +164,7 @@ impl Property for C07 {
     fn rule() -> String {
         "Generated: valid worlds in which one step is made multi-party (threshold t in 2..4, k in t..4 authorised, validly signed links \
          with identical materials and products), then exactly one link (or, when two functionaries delegated the step, the inner evidence of one functionary's own copy) is edited and re-signed by its own key: one path renamed, one digest \
-         changed, one algorithm changed or added/removed, one entry added or removed - in materials or in products; the dissenter's position \
+         changed, one algorithm changed or added/removed, one entry added or removed, one further entry that spells an existing path differently (./p, x/../p, doubled slash, p/.) with another digest, or one digest value cut to its first half - in materials or in products; the dissenter's position \
          in key-id order is varied (first/middle/last). Oracle: Ok only if all counted links of every step with threshold >= 2 have equal \
          materials and equal products. In a fifth of the cases the dissenting link is signed under the second key id of one key (Ed25519 raw/PKCS#8 import, RSA under its other PSS scheme) that the step also authorises, while the link under the first id agrees. The dissenting world is written over the agreeing one in the same link directory after the agreeing one was verified there once (same paths, one fixed modification time; ChangeDigest/RenamePath keep the file size). Non-trivial: the dissent is real (maps differ) and the control without dissent verifies Ok; distinct \
          by (t, k, edit kind, side, position, layout shape)."
@@ -160,7 +184,7 @@ impl Property for C07 {
             any::<u8>(),
             prop_oneof![Just(0u8), Just(128u8), Just(255u8), any::<u8>()],
             any::<bool>(),
-            prop_oneof![Just(Dissent::RenamePath), Just(Dissent::ChangeDigest), Just(Dissent::ChangeAlgorithm), Just(Dissent::AddAlgorithm), Just(Dissent::AddEntry), Just(Dissent::RemoveEntry)],
+            prop_oneof![Just(Dissent::RenamePath), Just(Dissent::ChangeDigest), Just(Dissent::ChangeAlgorithm), Just(Dissent::AddAlgorithm), Just(Dissent::AddEntry), Just(Dissent::RemoveEntry), Just(Dissent::AddAliasEntry), Just(Dissent::TruncateDigest)],
             any::<u8>(),
             prop_oneof![4 => Just(false), 1 => Just(true)],
         )
